@@ -19,7 +19,7 @@
     void h_conv_##NAME(void) {                                                                                         \
         uint64_t ticks;                                                                                                \
         uint64_t *rem;                                                                                                 \
-        GHOST_RESET_COMMON();                                                                                          \
+        MATH_GHOST_RESET();                                                                                            \
         __CPROVER_assume(DOMAIN);                                                                                      \
         uint64_t r = aws_timestamp_convert_u64(ticks, (OLDF), (NEWF), rem);                                            \
         if (HI_CANARY) CANARY(#NAME " top of range");                                                                  \
@@ -28,12 +28,15 @@
 
 /* domains handed to the contract */
 #define FULL 1
-/* bounded stand-ins: windows of 2^16 consecutive tick values
+/* bounded stand-ins: windows of 2*WIN consecutive tick values; WIN = 2^15 unless the unit overrides it (-DWIN=..., the
+ * slow pairs use 2^12 in the quick tier: see "bound" in units.json).  With WIN = 2^15:
  *   LOW  : [0, 2^16)
  *   MID  : 2^32 +- 2^15   (the 32-bit boundary)
  *   TOP  : the last 2^15 values of the domain
  *   EDGE : +-2^15 around the saturation threshold floor(MAX/ratio) (ratio = new/old > 1), and TOP */
-#define WIN 32768ULL
+#ifndef WIN
+#    define WIN 32768ULL
+#endif
 #define LOW (ticks < 2 * WIN)
 #define MID (ticks >= (1ULL << 32) - WIN && ticks < (1ULL << 32) + WIN)
 #define TOP (ticks >= UINT64_MAX - WIN)
@@ -70,15 +73,15 @@ PAIRS(X_EDGE)
 
 /* symbolic frequencies (bounded stand-in): both frequencies in [1, FMAX], ticks < TMAX */
 #ifndef FMAX
-#    define FMAX 64
+#    define FMAX 16
 #endif
 #ifndef TMAX
-#    define TMAX 4096
+#    define TMAX 1024
 #endif
 void h_conv_freq_small(void) {
     uint64_t ticks, oldf, newf;
     uint64_t *rem;
-    GHOST_RESET_COMMON();
+    MATH_GHOST_RESET();
     __CPROVER_assume(oldf >= 1 && oldf <= FMAX && newf >= 1 && newf <= FMAX && ticks < TMAX);
     uint64_t r = aws_timestamp_convert_u64(ticks, oldf, newf, rem);
     if (newf < oldf && oldf % newf == 0) CANARY("freq divisible down-conversion");
@@ -87,12 +90,16 @@ void h_conv_freq_small(void) {
     else CANARY("freq up-conversion");
 }
 
-/* the enum front end: every pair of the four units at once (dispatch only; the arithmetic is the callee's contract) */
+/* the enum front end is a forwarder: result == result of the general conversion on (timestamp, from, to, remainder),
+ * recorded by the ghost record of the replaced callee contract; all 16 unit pairs at once */
 void h_convert_enum(void) {
     uint64_t timestamp;
     enum aws_timestamp_unit from, to;
     uint64_t *rem;
-    GHOST_RESET_COMMON();
+    MATH_GHOST_RESET();
+    g_conv_on = true;
     uint64_t r = aws_timestamp_convert(timestamp, from, to, rem);
-    if (r == UINT64_MAX) CANARY("enum saturated or max"); else CANARY("enum ordinary");
+    if (from == to) CANARY("enum same unit");
+    else if (from < to) CANARY("enum to finer unit");
+    else CANARY("enum to coarser unit");
 }
